@@ -15,6 +15,10 @@ RULE = ("TimeArith.tla: instants as mixed-radix triples <<day, sec, ns>> (trunca
 
 def run(ctx):
     r = ctx.tlc("time", "MCTime", "MCTime_c16.cfg", workers=4, timeout=900)
+    # the month-free laws (canonical representation, add/sub inverse, difference adds back, group axioms, unit changes
+    # truncate toward the past and compose to the coarser unit, truncation to q seconds) for EVERY instant and duration:
+    # TLA+ proof system, 217 obligations, on the operators TimeArith.tla itself uses (TimeIdx.tla)
+    ctx.tlaps("time-proof", "TimeProof", needs=("TimeIdx",))
     binp = ctx.build("tvh-time")
     ctx.harness("time", binp, ["replay-time", "--in", r["emitted"]])
     # "NaT converts to None": the null rule of the cast algebra (Casts.tla) on the time types, every unit
